@@ -21,7 +21,7 @@ from vlib import qN, qbytes, qlist, qopt, qres, qbool, run_impl
 from props import toycipher
 from props import bf3common as B
 
-GEN_DEPS = ("Consts.v", "gen_consts", "Crc.v", "gen_crc")
+GEN_DEPS = ("Consts.v", "gen_consts", "Crc.v", "gen_crc", "Pad.v", "gen_pad", "AesFrame.v", "gen_aesframe")
 MODEL_TARGETS = ["Model/Bf3.vo", "Model/Bf3Eq.vo", "Model/Cbc.vo", "Model/ConfTlv.vo",
                  "Model/AesContainer.vo", "Model/Segments.vo"]
 IMPORTS = ("From Bec2 Require Import Gen.Consts Model.Cbc Model.ConfTlv Model.AesContainer "
